@@ -797,6 +797,13 @@ func csGenerate(emit func(*csScenario, string)) {
 		}
 		emit(s, fam)
 	}
+	if limit >= 0 {
+		// $VERIF_CASES (the orchestrator's search for a failing input): that many random scenarios only
+		for i := 0; i < limit; i++ {
+			put(csRandom(verifRng(int64(900000+i))), "r")
+		}
+		return
+	}
 	finalOf := func(kind string) csAttempt {
 		if kind == "sa" {
 			return csAttempt{kind: "ok", cut: 1 << 20, term: "hang"}
@@ -988,9 +995,9 @@ func csGenerate(emit func(*csScenario, string)) {
 
 	// ---- family r: random streams, cuts, scripts and budgets
 	{
-		n := verifN(2500, 60000)
-		if limit >= 0 {
-			n = limit
+		n := 2500
+		if thorough {
+			n = 60000
 		}
 		for i := 0; i < n; i++ {
 			rng := verifRng(int64(5000 + i))
